@@ -10,15 +10,19 @@ META = dict(
     functions=[START, END, BOTH],
     explanation="Pre/post contracts (route harness: assume wf / call the real function / assert the named clauses, frame by snapshot "
                 "comparison of the whole abstract state) on the real ownership-transfer functions of parsec/data.c. "
-                "wf(data), written from the statement: some copy is valid; owner_device is -1 or names a valid copy; a copy in state OWNED "
+                "wf(data), written from the statement: some copy is valid; owner_device is -1 or names a valid copy in state OWNED or SHARED; a copy in state OWNED "
                 "is the one named by owner_device (hence at most one owner); an EXCLUSIVE copy excludes every other valid copy; the copy named "
-                "by owner_device holds the newest version; without an owner all valid copies hold the same version.  "
+                "by owner_device holds the newest version; without an owner all valid copies hold the same version; "
+                "owner_device names a SHARED copy exactly when the ghost bit owner_read is set, which the spec sets only at a step (device == "
+                "owner_device, READ) and clears at every write (so an owner's copy loses OWNED only through a write by another device or the "
+                "owner's own read).  Transition table of the copies of the OTHER devices per (mode, old state): INVALID stays; READ keeps OWNED, "
+                "turns EXCLUSIVE SHARED, keeps SHARED (or invalidates it when stale under an OWNED target); WRITE by a non-owner turns every "
+                "valid copy SHARED, WRITE by the owner changes nothing.  "
                 "(step) inductive step for EVERY wf pre-state with parsec_nb_devices = N (copies attached or not, versions < 2^30, any "
                 "readers counts, any owner), every target and access mode READ / WRITE / RW: start() returns -1 or a device; a requested "
                 "transfer names a valid copy other than the target that holds the newest version and leaves the target INVALID until end(); a "
                 "transfer is requested only when the target is not up to date, never for a pure write, always for an INVALID target that is "
-                "read, and exactly when the target is not up to date in every state where the owner's copy is in state OWNED or there is no "
-                "owner; READ increments the target's readers once; WRITE sets owner_device to the target; no version changes; other copies "
+                "read, and exactly when the target is not up to date in every state whose ghost owner_read is clear; READ increments the target's readers once; WRITE sets owner_device to the target; no version changes; other copies "
                 "are only demoted (EXCLUSIVE/OWNED -> SHARED, stale -> INVALID); end() makes the target SHARED (read) or OWNED (write) and "
                 "touches nothing else; after the caller's version stamp wf holds again (so the clauses hold after histories of any length).  "
                 "(combined) the same through the real parsec_data_transfer_ownership_to_copy, lock released.  (frame) route dfcc: goto-instrument --dfcc "
@@ -28,7 +32,8 @@ META = dict(
                 "after every step.  (lemma) wf implies the observable clauses.  "
                 "One clause of the statement FAILS on the unchanged tree and is kept in the defect.* jobs: after the owner has read its own "
                 "copy (end(owner, READ) turns it SHARED, owner_device unchanged) a stale SHARED copy on another device is served without a "
-                "transfer.",
+                "transfer.  The defect.* jobs assert the clause ONLY in states with the ghost owner_read set; a stale read reached any other way "
+                "fails in the main jobs.",
     trusted_base=["harness builds the parsec_data_t / parsec_data_copy_t objects field by field (malloc'ed data with N device slots, static "
                   "pool of copies) instead of going through the object system and parsec_data_copy_attach",
                   "parsec_atomic_lock / unlock through verif_rg.h without interference (operations are call-atomic under data->lock)"],
